@@ -634,6 +634,16 @@ def gen_case(seed, profile='edit'):
             qcount[0] += 1
             rhs = q(qcount[0], '1')
         pool.append({'lhs': lhs, 'rhs': rhs})
+    stray = None
+    if profile in ('value', 'edit') and nbase >= 3 and rng.random() < 0.4:
+        # a stray ODE with respect to ANOTHER variable, added and removed again while the other ODEs stay
+        ys = [i for i in sorted(kinds) if kinds[i] == 'alg']
+        if ys:
+            y = rng.choice(ys)
+            s_ = rng.choice([i for i in range(nbase) if i not in (y, tvar)])
+            qcount[0] += 1
+            pool.append({'lhs': ['d', y, s_, 1], 'rhs': q(qcount[0], '1')})
+            stray = (y, len(pool) - 1)
     npool = len(pool)
     ops = []
     nvars = nbase
@@ -642,6 +652,12 @@ def gen_case(seed, profile='edit'):
             ops.append(['addeq', e, True])
     if chain_query is not None:
         ops.append(['q_value', chain_query])
+    stray_ops = []
+    if stray is not None:
+        y, se = stray
+        stray_ops = [['rmeq', core_eq[y]], ['addeq', se, True], ['q_free'], ['rmeq', se], ['q_free'], ['addeq', core_eq[y], True],
+                     ['q_free'], ['q_states']]
+        stray_ops += [['q_value', y], ['q_value', rng.randrange(nbase)]] if profile == 'value' else [['q_def', y], ['q_derivs']]
     nops = rng.randint(8, 25)
     queries = ['q_eqs', 'q_states', 'q_graph', 'q_ngraph', 'q_vars', 'q_free', 'q_derivs', 'q_derived']
     weights = PROFILES[profile]
@@ -694,6 +710,9 @@ def gen_case(seed, profile='edit'):
             ops.append(['q_value', rng.randrange(nvars)])
         elif k == 'setinit':
             ops.append(['setinit', rng.randrange(nbase), rng.choice(['1', '-2', '0.5', '4', '0'])])
+    if stray_ops:
+        at = rng.randrange(len(ops) + 1) if rng.random() < 0.5 else ncore
+        ops[at:at] = stray_ops
     if profile == 'annot' and rng.random() < 0.35:
         # an id that moves away from a variable whose annotations were looked at, and a NEW id for that variable: the
         # annotations of the old id stay with its new carrier, also when the first variable is removed
